@@ -99,6 +99,11 @@ example : respErr { Skeleton.current with respErrFreshPerFrame := false } (some 
     (checked against the regenerated skeleton). -/
 theorem C10_closure_value_kept_with_error : Skeleton.current.pxResultChecksValid = true := by decide
 
+/-- "nil stays nil" for closures whose declared error result is a concrete pointer type: the wrapper decides
+    "failed or not" by `IsNil()` on the last result and only then converts it to `error` (checked against the
+    regenerated skeleton) — a type assertion alone would turn the nil pointer into a non-nil `error`. -/
+theorem C10_closure_nil_error_stays_nil : Skeleton.current.clNilErrorViaIsNil = true := by decide
+
 end Panrpc.Wire
 
 #print axioms Panrpc.Wire.C10_message_exact
@@ -107,3 +112,4 @@ end Panrpc.Wire
 #print axioms Panrpc.Wire.C10_blank_message_arrives_nil
 #print axioms Panrpc.Wire.C10_trimSpace_spec
 #print axioms Panrpc.Wire.C10_closure_value_kept_with_error
+#print axioms Panrpc.Wire.C10_closure_nil_error_stays_nil
